@@ -763,4 +763,42 @@ def PartitionedBy {κ α : Type} (cmp : κ → α → Int) (key : κ) (a : List 
   ∀ i j (_ : i ≤ j) (hj : j < a.length),
     (cmp key (a[i]'(by omega)) < 0 → cmp key a[j] < 0) ∧ (cmp key (a[i]'(by omega)) ≤ 0 → cmp key a[j] ≤ 0)
 
+/-! ## round 3: what the correspondence compares for qsort / bsearch, rand.c's state
+
+The property fixes "a permutation of the input ordered by the comparator" and
+"an element comparing equal to the key": NOT the arrangement inside a run of
+elements that compare equal, nor which of several equal elements bsearch
+returns.  The correspondence therefore compares canonical forms (of the real
+code's output and of the model's output); the theorems about the literal
+algorithm stay as they are. -/
+
+/-- inside every maximal run of adjacent elements comparing equal the elements
+are sorted by `le` (a total order on whole elements) -/
+def canonRuns {α : Type} (cmp : α → α → Int) (le : α → α → Bool) (a : List α) : List α :=
+  ((a.splitBy fun x y => cmp x y == 0).map fun run => run.mergeSort le).flatten
+
+/-- the lexicographic order "by the comparator, then by `le`" (a total order on whole
+elements when `cmp` is consistent and `le` is a total order) -/
+def lexLe {α : Type} (cmp : α → α → Int) (le : α → α → Bool) (x y : α) : Bool :=
+  decide (cmp x y < 0) || (cmp x y == 0 && le x y)
+
+/-- the canonical form the driver prints: the output sorted by `lexLe`.  On an output
+that is ordered by `cmp` (every output of the model is: `qsort_sorted`) this only
+rearranges the elements inside each run of equal elements, i.e. it is `canonRuns`,
+the form the harness computes from the real code's output. -/
+def canonLex {α : Type} (cmp : α → α → Int) (le : α → α → Bool) (a : List α) : List α :=
+  a.mergeSort (lexLe cmp le)
+
+/-- the run of elements comparing equal to the key around index `i` (first, last) -/
+def equalRun {κ α : Type} (cmp : κ → α → Int) (key : κ) (a : List α) (i : Nat) : Nat × Nat :=
+  (i - ((a.take i).reverse.takeWhile fun x => cmp key x == 0).length,
+   i + ((a.drop (i + 1)).takeWhile fun x => cmp key x == 0).length)
+
+/-- `static unsigned long seed = 314567651ul;` -/
+def randInit : Nat := 314567651
+/-- width of that object in the build the driver is instantiated for (LP64) -/
+def randStateBits : Nat := 64
+/-- the generator's modulus: every state after the first call is below it -/
+def randMod : Nat := 204814687
+
 end Igris.C11
